@@ -144,6 +144,14 @@ class TypeApprox:
                 idx = next((i for i, v in enumerate(a.values) if v is child), None)
                 if idx:
                     tests.extend((v, True) for v in a.values[:idx])
+            # else / elif branch of  `if … or not isinstance(x, T) …:`  ->  x is T there
+            if isinstance(a, ast.If) and any(child is s for s in a.orelse):
+                disj = a.test.values if isinstance(a.test, ast.BoolOp) and isinstance(a.test.op, ast.Or) else [a.test]
+                for dsj in disj:
+                    if isinstance(dsj, ast.UnaryOp) and isinstance(dsj.op, ast.Not):
+                        r = self._isinstance_type(dsj.operand, name.id)
+                        if r:
+                            return r
             for t, _pos in tests:
                 for sub in (t.values if isinstance(t, ast.BoolOp) and isinstance(t.op, ast.And) else [t]):
                     r = self._isinstance_type(sub, name.id)
@@ -293,6 +301,17 @@ class TypeApprox:
                 if out:
                     break
             if out:
+                break
+        # a bare type variable resolved through the class's parametrised base:  class StringLiteral(Literal[str])
+        if out is not None and re.fullmatch(r"[A-Z]\w?", out):
+            for c in self.prog.mro(ci):
+                for b in c.base_exprs:
+                    m = re.fullmatch(r"\w+\[([\w.]+)\]", b.replace(" ", ""))
+                    if m and m.group(1) != out:
+                        out = m.group(1)
+                        break
+                else:
+                    continue
                 break
         self._attr_cache[key] = out
         return out
